@@ -139,11 +139,14 @@ func dispatchConnection(conn net.Conn, sta *State) {
 		webConn, err := sta.RedirDialer.Dial("tcp", net.JoinHostPort(sta.RedirHost.String(), redirPort))
 		if err != nil {
 			log.Errorf("Making connection to redirection server: %v", err)
+			conn.Close()
 			return
 		}
 		_, err = webConn.Write(data)
 		if err != nil {
 			log.Error("Failed to send first packet to redirection server", err)
+			webConn.Close()
+			conn.Close()
 			return
 		}
 		go common.Copy(webConn, conn)
